@@ -170,30 +170,73 @@ def round2 (s : String) : Rat := Dec.roundHalfAway 2 (numComma s)
 def isTrue : Res Bool → Bool
   | .ok b => b
   | _ => false
-def ibRows (acct : Account) : Option Commodity → Int → List Rec → List Item
-  | _, _, [] => []
-  | base, dateTo, r :: rs =>
-    if isTrue (IB.condEq r [(0, "Account Information"), (1, "Data"), (2, "Base Currency")]) then
-      ibRows acct (some (fldD r 3)) dateTo rs
-    else if isTrue (IB.condEq r [(0, "Statement"), (1, "Data"), (2, "Period")]) then
-      ibRows acct base (dateOf layoutLong (fldD ((IB.splitOnChars " - ".toList (fldD r 3).toList).map String.ofList) 1)) rs
-    else if isTrue (IB.condEq r [(0, "Trades"), (1, "Data"), (2, "Order"), (3, "Forex")]) then
-      .booking (dateOf10 layoutYMD (fldD r 6))
-        ([(String.ofList ((fldD r 5).toList.takeWhile (· != '.')), round2 (fldD r 7)), (fldD r 4, round2 (fldD r 10))] ++
-          (if round2 (fldD r 11) = 0 then [] else [(base.getD "", round2 (fldD r 11))])) :: ibRows acct base dateTo rs
-    else if isTrue (IB.condEq r [(0, "Trades"), (1, "Data"), (2, "Order"), (3, "Stocks")]) then
-      .booking (dateOf10 layoutYMD (fldD r 6))
-        [(fldD r 5, round2 (fldD r 7)), (fldD r 4, round2 (fldD r 10)), (fldD r 4, num (fldD r 11))] :: ibRows acct base dateTo rs
-    else if isTrue (IB.condDeposit r) then
-      .booking (dateOf layoutYMD (fldD r 3)) [(fldD r 2, round2 (fldD r 5))] :: ibRows acct base dateTo rs
-    else if (isTrue (IB.condSection "Dividends" r) && r.length == 6) || (isTrue (IB.condSection "Interest" r) && r.length == 6)
-        || isTrue (IB.condSection "Withholding Tax" r) then
-      .booking (dateOf layoutYMD (fldD r 3)) [(fldD r 2, numComma (fldD r 5))] :: ibRows acct base dateTo rs
-    else if isTrue (IB.condEq r [(0, "Open Positions"), (1, "Data"), (2, "Summary")]) then
-      .assertion dateTo (num (fldD r 6)) (fldD r 5) :: ibRows acct base dateTo rs
-    else if isTrue (IB.condEq r [(0, "Forex Balances"), (1, "Data"), (2, "Forex")]) then
-      .assertion dateTo (round2 (fldD r 5)) (fldD r 4) :: ibRows acct base dateTo rs
-    else ibRows acct base dateTo rs
-def interactivebrokers (acct : Account) (recs : List Rec) : List Item := ibRows acct none 0 recs
+/-- what a reader of one record kind says: `some` = the record is of that kind (new reader state, items) -/
+abbrev SOut := Option (IB.St × List Item)
+
+def ibBaseCurrency (st : IB.St) (r : Rec) : SOut :=
+  if isTrue (IB.condEq r [(0, "Account Information"), (1, "Data"), (2, "Base Currency")]) then
+    some ({ st with base := some (fldD r 3) }, [])
+  else none
+
+/-- the statement period `<from> - <to>`: balances are stated for its last day -/
+def ibPeriod (st : IB.St) (r : Rec) : SOut :=
+  if isTrue (IB.condEq r [(0, "Statement"), (1, "Data"), (2, "Period")]) then
+    some ({ st with dateTo := dateOf layoutLong (fldD ((IB.splitOnChars " - ".toList (fldD r 3).toList).map String.ofList) 1) }, [])
+  else none
+
+/-- a forex trade moves `Quantity` (col 7) of the first currency of the pair (col 5), `Proceeds` (col 10) of `Currency`
+(col 4) and the commission (col 11) in the base currency -/
+def ibForex (st : IB.St) (r : Rec) : SOut :=
+  if isTrue (IB.condEq r [(0, "Trades"), (1, "Data"), (2, "Order"), (3, "Forex")]) then
+    some (st, [.booking (dateOf10 layoutYMD (fldD r 6))
+      ([(String.ofList ((fldD r 5).toList.takeWhile (· != '.')), round2 (fldD r 7)), (fldD r 4, round2 (fldD r 10))] ++
+        (if round2 (fldD r 11) = 0 then [] else [(st.base.getD "", round2 (fldD r 11))]))])
+  else none
+
+/-- a stock trade moves `Quantity` of `Symbol` (col 5) and `Proceeds` plus `Comm/Fee` (col 11) of `Currency` -/
+def ibTrade (st : IB.St) (r : Rec) : SOut :=
+  if isTrue (IB.condEq r [(0, "Trades"), (1, "Data"), (2, "Order"), (3, "Stocks")]) then
+    some (st, [.booking (dateOf10 layoutYMD (fldD r 6))
+      [(fldD r 5, round2 (fldD r 7)), (fldD r 4, round2 (fldD r 10)), (fldD r 4, num (fldD r 11))]])
+  else none
+
+def ibDeposit (st : IB.St) (r : Rec) : SOut :=
+  if isTrue (IB.condDeposit r) then
+    some (st, [.booking (dateOf layoutYMD (fldD r 3)) [(fldD r 2, round2 (fldD r 5))]])
+  else none
+
+/-- dividends, interest and withholding tax rows: `Amount` (col 5) of `Currency` (col 2) on `Date` (col 3) -/
+def ibCash (sec : String) (six : Bool) (st : IB.St) (r : Rec) : SOut :=
+  if isTrue (IB.condSection sec r) && (!six || r.length == 6) then
+    some (st, [.booking (dateOf layoutYMD (fldD r 3)) [(fldD r 2, numComma (fldD r 5))]])
+  else none
+
+def ibPositions (st : IB.St) (r : Rec) : SOut :=
+  if isTrue (IB.condEq r [(0, "Open Positions"), (1, "Data"), (2, "Summary")]) then
+    some (st, [.assertion st.dateTo (num (fldD r 6)) (fldD r 5)])
+  else none
+
+def ibForexBalances (st : IB.St) (r : Rec) : SOut :=
+  if isTrue (IB.condEq r [(0, "Forex Balances"), (1, "Data"), (2, "Forex")]) then
+    some (st, [.assertion st.dateTo (round2 (fldD r 5)) (fldD r 4)])
+  else none
+
+/-- the first reader that recognises the record -/
+def firstSome : List (IB.St → Rec → SOut) → IB.St → Rec → IB.St × List Item
+  | [], st, _ => (st, [])
+  | p :: ps, st, r =>
+    match p st r with
+    | some x => x
+    | none => firstSome ps st r
+
+def ibReaders : List (IB.St → Rec → SOut) :=
+  [ibBaseCurrency, ibPeriod, ibForex, ibTrade, ibDeposit, ibCash "Dividends" true, ibCash "Interest" true,
+   ibCash "Withholding Tax" false, ibPositions, ibForexBalances]
+
+def ibRows : IB.St → List Rec → List Item
+  | _, [] => []
+  | st, r :: rs => (firstSome ibReaders st r).2 ++ ibRows (firstSome ibReaders st r).1 rs
+
+def interactivebrokers (recs : List Rec) : List Item := ibRows {} recs
 
 end Knut.Spec.Import
